@@ -16,16 +16,20 @@ THEOREMS = [
     "Ural.Props.C20.force_keeps_rest",
     "Ural.Props.C20.force_eq_ensure_strip_partial",
     "Ural.Props.C20.force_eq_ensure_strip_counterexample",
+    "Ural.Props.C20.fullForceEqEnsureStrip_false",
     "Ural.Props.C20.protocol_spelling_irrelevant",
     "Ural.Props.C20.unquote_quote",
     "Ural.Props.C20.format_no_dangling_qmark",
     "Ural.Props.C20.format_path_join",
     "Ural.Props.C20.format_fragment",
     "Ural.Props.C20.format_query_roundtrip",
+    "Ural.Props.C20.format_url_shape",
     "Ural.Props.C20.format_url_query_fragment",
     "Ural.Props.C20.formatter_format_spec",
     "Ural.Props.C20.add_query_argument_appends_one",
+    "Ural.Props.C20.add_then_lookup",
     "Ural.Props.C20.add_then_get",
+    "Ural.urlsplit_query_fragment",
     "Ural.Props.C20.pathsplit_spec",
     "Ural.Props.C20.urlpathsplit_spec",
 ]
@@ -81,7 +85,9 @@ UNPROVED = (
     "explored by nothing. sorted() of dict items is modelled (insertion sort by key) and compared, the laws are proved for the ordered item list."
 )
 
-_PROTO = _re.compile(r"[a-zA-Z]{0,64}:?//")
+# the property's own notion of "has a protocol" (independent of ural.patterns): an alphabetic protocol
+# of at most 64 letters followed by '://', or a protocol-relative '//'
+_PROTO = _re.compile(r"(?:[a-zA-Z]{1,64}:)?//")
 
 
 # --------------------------------------------------------------------------------------
@@ -175,7 +181,11 @@ def cases(rng, tier):
            "call": {"base": None, "path": None, "args": [["a", None]], "dict": True, "fragment": None, "ext": None}}
     yield {"k": "proto", "url": "a://b://c", "protocol": "http"}  # KF-C20-1 witness
     yield {"k": "proto", "url": "////x", "protocol": "ftp://"}
-    yield {"k": "proto", "url": "a" * 70 + "://x", "protocol": "http"}  # {0,64} backtracking: no match
+    yield {"k": "proto", "url": "a" * 70 + "://x", "protocol": "http"}  # {1,64} backtracking: no match
+    # D51 (PROTOCOL_RE used to take these for "with protocol"): they now take the no-protocol branch
+    for u in ("localhost//a", "HTTP//x", "://x"):
+        yield {"k": "proto", "url": u, "protocol": "http"}
+        yield {"k": "urlpath", "url": u + "/p"}
 
     # ---- protocol helpers: the grid of the quantifier
     kf_budget = [6]
